@@ -20,6 +20,17 @@
 //   @objreg <struct-type> <go-value> every struct type is DECLARED (attributes => {name => derived type, …}; nillable fields and
 //                               tag defaults with a value) and mapped with ImplementationRegistry.RegisterType; Wrap →
 //                               FromReflectedValue → px.New; IsInstance; ReflectTo → ToReflectedValue → DeepEqual
+//   @objregp …                  objreg with every embedded first field DECLARED as the parent (parent => R::S<i>): FromReflectedValue /
+//                               ToReflectedValue descend into the embedded struct with the parent type.  objreg / objregp also take
+//                               containers of / pointers to structs at the top (FromReflectedValue receives the pointer)
+//   @objtg <struct-type> <go-value>  obj with the puppet tags of the struct's own fields handed over beside the Go type
+//                               (px.NewTaggedType + TypeFromTagged); everything observed must equal what obj observes
+//   @objnorm <struct-type> <go-value>  obj on tag strings outside the key:"value" convention; must equal obj on the struct that
+//                               carries exactly the puppet tags reflect.StructTag finds
+//   @wk FIELD N                 fields of the well-known Go types (px.Value …, time.Duration, time.Time, *regexp.Regexp): mut.go
+//   @embed / @embedts           compiled-in structs that embed structs (embed.go); ts = registered with TypeSetFromReflect
+//   refl also checks (Pred only) that Reflector.Reflect2 and the value's own Reflected.ReflectTo give what ReflectTo gave; obj
+//   that the constructed instance converts back into a POINTER to the struct as well (mut.go otherWaysBack, ptrDestBack)
 //   obj construction forms: pos (all attribute values), postrim (without the trailing values that equal their default),
 //                               named (InitHash), full (hash with every attribute); a form is skipped when a single Hash
 //                               argument would be ambiguous
@@ -682,6 +693,9 @@ func exec(c px.Context, op string, args []sx.Sexp) (r core.Result) {
 	r = core.Result{Out: "bad-op", Pred: "FAIL harness-bad-op " + op}
 	if op == "embed" {
 		return execEmbed(c, args)
+	}
+	if op == "embedts" {
+		return execEmbed2(c, args, true)
 	}
 	if op == "wk" {
 		return execWk(c, args)
